@@ -4,6 +4,7 @@ Require ExtrOcamlBasic.
 From Coq Require Import ZArith QArith.
 From TW Require Import All.
 From TW Require Import Pipeline.
+From TW Require Import WrapSmawk.
 From TW Require Import Chars Esc Word Separators Splitters Num FirstFit OptFit Wrap Refill Indent Columns Custom.
 Extraction Language OCaml.
 Extraction "model.ml"
@@ -20,5 +21,6 @@ Extraction "model.ml"
   indent dedent
   wrap_columns custom3
   pipeline_words line_widths body lastw_pen
+  ofit_smawk optimal_fit_smawk smawk_minima
   trim split_terminator_lf
   wf_strip greedy_b take_ws has_nonws is_prefix_char split_terminator_lf trim_end ends_with join spaces.
